@@ -49,6 +49,7 @@ fn main() {
         Some("C17") => std::process::exit(props::c17::run(&report::parse_args(&args[1..]))),
         Some("--c17-worker") => props::c17::worker(&args[1..]),
         Some("C10") => std::process::exit(props::c10::run(&report::parse_args(&args[1..]))),
+        Some("C11") => std::process::exit(props::c11::run(&report::parse_args(&args[1..]))),
         Some("C13") => std::process::exit(props::c13::run(&report::parse_args(&args[1..]))),
         _ => {
             eprintln!("usage: vdrive <cmd> ..");
